@@ -43,11 +43,16 @@ for r in $(grep -o 'replays/[^ ]*' $S/check_out.txt | head -2); do cp $r $S/ 2>/
 python3 - <<PY
 import json
 m=json.load(open('$S/agent_meta.json'))
+import os
+old=json.load(open('$S/meta.json')) if os.path.exists('$S/meta.json') else {}
 out={"property":"$PID","breaks":m.get("summary"),"needs":m.get("needs"),"files_changed":m.get("files_changed"),
  "demo_package":m.get("demo_package"),"demo_cmd":m.get("demo_cmd"),
  "confirmed":{"patch_applies":$P==0,"builds":$B==0,"demo_passes_without_change":$D0==0,"demo_fails_with_change":$D1!=0,
    "new_suite_failures":$NEWFAIL,"ran":"tools/confirm_seed.sh: rsync copy of /repo, demo before/after patch, go build ./..., go test -vet=off -count=1 ./... (failures compared with the unmodified tree's two offline failures), VERIF_REPO=<copy> ./check $PID quick"},
  "check_detects":$C==1,"check_output":open('$S/check_out.txt').read()[-1500:]}
+for k in ("first_run_missed","detected_after_strengthening"):
+    if k in old: out[k]=old[k]
+if old and not old.get("check_detects") and out["check_detects"]: out["first_run_missed"]=True
 json.dump(out,open('$S/meta.json','w'),indent=1)
 print(json.dumps({k:out[k] for k in ("property","confirmed","check_detects")}))
 PY
